@@ -22,7 +22,7 @@ RE_NORM = re.compile(
     r'''(?x)
     (/|\\/)|
     (\\[abfnrtv\\])|
-    (\\(?:U[\da-fA-F]{8}|u[\da-fA-F]{4}|x[\da-fA-F]{2}|([0-7]{1,3})))|
+    (\\(?:U[0-9a-fA-F]{8}|u[0-9a-fA-F]{4}|x[0-9a-fA-F]{2}|([0-7]{1,3})))|
     (\\N\{[^}]*?\})|
     (\\[^NUux]) |
     (\\[NUux])
